@@ -215,7 +215,8 @@ fn check_written(c: &mut Case, item: Item, opt: SizeOpt) {
     let (want_w, back_ok, class) = match &item {
         Item::U(_, v) => (min_width_u(*v), tools::arr_to_u64(payload).ok() == Some(*v) && dec_uint(payload) == Some(*v), min_width_u(*v) as u64),
         Item::I(_, v) => (min_width_i(*v), tools::arr_to_i64(payload).ok() == Some(*v) && dec_sint(payload) == Some(*v), 16 + min_width_i(*v) as u64 * 2 + (*v < 0) as u64),
-        Item::F(_, bits) => (8, tools::arr_to_f64(payload).ok().map(|f| f.to_bits()) == Some(*bits) && dec_float(payload) == Some(*bits), 64 + (f64::from_bits(*bits).is_nan() as u64) * 2 + (f64::from_bits(*bits).is_finite() as u64)),
+        // the statement pins the minimal width for integers only: a float may take 4 or 8 bytes as long as it decodes back bit for bit
+        Item::F(_, bits) => (if payload.len() == 4 { 4 } else { 8 }, tools::arr_to_f64(payload).ok().map(|f| f.to_bits()) == Some(*bits) && dec_float(payload) == Some(*bits), 64 + (f64::from_bits(*bits).is_nan() as u64) * 2 + (f64::from_bits(*bits).is_finite() as u64)),
         _ => unreachable!(),
     };
     if payload.len() != want_w {
